@@ -122,7 +122,11 @@ def perform(act, tr):
     kw = {'is_breaking': act[2]}
     if act[3]:
         kw['detail'] = 'scripted detail'
-    e = cls(**kw)
+    if act[1] == 'MethodNotAllowed' and not act[3]:
+        # the one error class whose first argument is not the detail: the methods it allows, as the documentation spells it
+        e = cls(['GET', 'HEAD'], **kw)
+    else:
+        e = cls(**kw)
     tr['raised'] = e
     if kind == 'raise_http':
         raise e
@@ -229,8 +233,11 @@ def build_app(kind):
         routes.append(Route('/d%d/spyrender' % depth, ep, rn, middlewares=mws[:depth]))
         # ... and a later route on the same path that would answer: only an error *marked* non-breaking lets the request
         # get that far - never an uncaught exception, a non-Response result or an ordinary HTTP error
-        routes.append(Route('/d%d/norender' % depth, lambda: Response('later sibling', status=299)))
-        routes.append(Route('/d%d/spyrender' % depth, lambda: Response('later sibling', status=299)))
+        # (on every second depth: on the others a deferred error meets the catch-all route, with the PATCH-only sibling's
+        # method set on record)
+        if depth % 2 == 0:
+            routes.append(Route('/d%d/norender' % depth, lambda: Response('later sibling', status=299)))
+            routes.append(Route('/d%d/spyrender' % depth, lambda: Response('later sibling', status=299)))
     routes.append(Route('/ok', lambda: Response('fine', mimetype='text/plain')))
     routes.append(Route('/item/<x>', lambda x: Response('item %s' % x, mimetype='text/plain'), methods=['GET']))
     # '+debug-flag': the application is told debug=True *and* given its handler explicitly - the handler is what counts
@@ -254,7 +261,7 @@ def gen_case(rng):
     else:
         act = [rng.pick(['raise_http', 'return_http']), rng.pick(HTTP_CLASSES), rng.chance(0.6), rng.chance(0.5)]
     return {'handler': rng.pick(HANDLERS), 'path': '/d%d/%s' % (depth, rk), 'where': where, 'act': act,
-            'accept': rng.pick(ACCEPTS), 'method': rng.pick(['GET', 'GET', 'GET', 'POST', 'HEAD', 'PUT'])}
+            'accept': rng.pick(ACCEPTS), 'method': rng.pick(['GET', 'GET', 'GET', 'POST', 'HEAD', 'PUT']), 'upload': rng.chance(0.3)}
 
 
 HTTP_CLASSES = []
@@ -274,6 +281,14 @@ def send(app, case):
     tr = spies.new_trace()
     tr['ran'] = False
     tok = {'where': case['where'], 'act': case['act']}
+    if case.get('upload') and case['method'] in ('POST', 'PUT'):
+        # the failing request carries a form with an uploaded file
+        headers['Content-Type'] = 'multipart/form-data; boundary=vtc08boundary'
+        body = (b'--vtc08boundary\r\nContent-Disposition: form-data; name="note"\r\n\r\nhello\r\n'
+                b'--vtc08boundary\r\nContent-Disposition: form-data; name="attachment"; filename="report.txt"\r\n'
+                b'Content-Type: text/plain\r\n\r\nfile body\r\n--vtc08boundary--\r\n')
+        ex = probe.request(app, case['method'], case['path'], headers=headers, body=body, token=tok, trace=tr)
+        return ex, tr
     ex = probe.request(app, case['method'], case['path'], headers=headers, token=tok, trace=tr)
     return ex, tr
 
@@ -289,7 +304,7 @@ def _expected(case):
     from clastic import errors
     act, where, handler = case['act'], case['where'], case['handler']
     norender = case['path'].endswith('norender')
-    if act[0] in ('raise_http', 'return_http') and not act[2]:
+    if act[0] in ('raise_http', 'return_http') and not act[2] and int(case['path'][2]) % 2 == 0:
         return ('status', 299)          # marked non-breaking: the later route on the path answers
     if act[0] in ('raise_http', 'return_http'):
         code = getattr(errors, act[1]).code or 200
@@ -470,8 +485,25 @@ def plan(tier, seed):
              'histories': 6 if tier == 'quick' else 300, 'timeout': 7200} for i in range(NSHARDS)]
 
 
+def first_answers(sh):
+    """The first error pages of a process's life, in the order 404 - 405 - 500 and as HTML: whatever an error page needs
+    (templates, tables) must be there for the first one, whichever kind that is."""
+    for kind in ('contextual', 'default+debug-flag', 'default'):
+        app = build_app(kind)
+        for method, path, want in (('GET', '/nothing/here', 404), ('DELETE', '/item/x', 405), ('GET', '/nothing/else', 404)):
+            ex = probe.request(app, method, path, headers={'Accept': 'text/html'}, token=None, trace=spies.new_trace())
+            sh.hit('first-error-pages-of-the-process')
+            if ex.exc is not None or ex.status != want:
+                sh.violation('C08/exception-escaped' if ex.exc is not None else 'C08/wrong-status',
+                             'among the first requests of the process, %s %s as HTML under the %s handler: %s (expected %d)'
+                             % (method, path, kind, probe.safe_repr(ex.exc)[:200] if ex.exc is not None else ex.status, want),
+                             {'first_answers': kind})
+                return
+
+
 def run_shard(sh, spec):
     _sh[0] = sh
+    first_answers(sh)
     HTTP_CLASSES[:] = http_classes()
     sh.notes['http_classes'] = len(HTTP_CLASSES)
     rng = Rng(spec['seed'], PROPERTY, spec['label'])
@@ -484,6 +516,8 @@ def run_shard(sh, spec):
 def replay(sh, case, spec):
     _sh[0] = sh
     HTTP_CLASSES[:] = http_classes()
+    if 'first_answers' in case:
+        return first_answers(sh)
     if 'probe' in case:
         # the left-over needs its history: a 405 first, then the probe
         app = build_app('default')
